@@ -60,7 +60,7 @@ theorem child_min (s : St) (i n k : Nat) (h : 2 * i + 1 < n) (hk : k < n) (hk0 :
 theorem less_swap (s : St) (i j a b : Nat) (hi : i < s.arr.length) (hj : j < s.arr.length) :
     less (swap s i j) a b =
       less s (if a = j then i else if a = i then j else a) (if b = j then i else if b = i then j else b) := by
-  simp only [less, swap_desc, at_swap s i j _ hi hj]
+  simp only [less, swap_cmp, at_swap s i j _ hi hj]
   grind
 
 theorem holeDown_step (s : St) (i n : Nat) (hn : n ≤ s.arr.length) (h : 2 * i + 1 < n)
@@ -179,11 +179,11 @@ theorem up_spec (s : St) (j n : Nat) (hn : n ≤ s.arr.length) (hj : j < n) (hp 
 
 theorem heapOrd_iff_heapOn (s : St) : HeapOrd s ↔ HeapOn s s.arr.length := Iff.rfl
 
-theorem heapOrd_init (d : Bool) : HeapOrd (init d) := by
+theorem heapOrd_init (d : Cmp) : HeapOrd (init d) := by
   intro i _ hi; simp [init] at hi
 
-/-- `less` only looks at `desc` and the two slots. -/
-theorem less_congr {s t : St} {a b : Nat} (hd : t.desc = s.desc) (ha : t.at a = s.at a)
+/-- `less` only looks at `cmp` and the two slots. -/
+theorem less_congr {s t : St} {a b : Nat} (hd : t.cmp = s.cmp) (ha : t.at a = s.at a)
     (hb : t.at b = s.at b) : less t a b = less s a b := by
   simp only [less, hd, ha, hb]
 
@@ -279,7 +279,7 @@ theorem heapOrd_heapRemove (s : St) (i : Nat) (hi : i < s.arr.length) (hs : Heap
 
 /-- In an ordered heap the root is a minimum: no slot is less than slot 0. -/
 theorem root_min (s : St) (hs : HeapOrd s) (i : Nat) (hi : i < s.arr.length) :
-    lessK s.desc (s.at i).key (s.at 0).key = false := by
+    lessK s.cmp (s.at i).key (s.at 0).key = false := by
   induction i using Nat.strongRecOn with
   | ind i ih =>
     by_cases h0 : i = 0
@@ -290,7 +290,7 @@ theorem root_min (s : St) (hs : HeapOrd s) (i : Nat) (hi : i < s.arr.length) :
 
 /-- `root_min` over membership. -/
 theorem root_min_mem (s : St) (hs : HeapOrd s) (x : Elem) (hx : x ∈ s.arr) :
-    lessK s.desc x.key (s.at 0).key = false := by
+    lessK s.cmp x.key (s.at 0).key = false := by
   obtain ⟨i, hi, rfl⟩ := (mem_iff_at s x).1 hx
   exact root_min s hs i hi
 
